@@ -7,6 +7,9 @@ fn main() {
     let mut ctx = Ctx::new(seed);
     match cmd {
         "rows" => rows::run(&mut ctx),
+        "component" => components::run(&mut ctx, &args[2..]),
+        #[cfg(not(feature = "sym"))]
+        "prove_component" => components::prove(&mut ctx, &args[2..]),
         "extract" => gadgets::run(&mut ctx, &args[2..]),
         "prove_gadget" => gadgets::prove(&mut ctx, &args[2..]),
         _ => {
